@@ -324,6 +324,13 @@ def run(ctx):
         if ctx.mine(j):
             k_tc(ctx, ROUTES[j % 3], r.getrandbits(11), r.getrandbits(14), r.getrandbits(8), r.getrandbits(8),
                  r.getrandbits(16), r.getrandbits(4), rnd_data(n), model_fed=bool(j & 1))
+    # block-boundary sizes: CRC-covered octets (11 + n) and total octets (13 + n) around multiples of 256 ... 32768
+    from spverif.core.util import block_boundary_sizes
+    for j, n in enumerate(block_boundary_sizes((11, 13), MAX_DATA, ctx.quick)):
+        if ctx.mine(j):
+            ctx.table("block_boundary_data_len", n)
+            k_tc(ctx, ROUTES[j % 3], r.getrandbits(11), r.getrandbits(14), r.getrandbits(8), r.getrandbits(8), r.getrandbits(16), r.getrandbits(4), rnd_data(n),
+                 model_fed=bool(j & 1))
     if ctx.shard[0] == 0:
         for n in (65528, MAX_DATA):
             for route in ROUTES:
